@@ -500,9 +500,14 @@ pub fn print_expr(e: &E) -> String {
         E::Str(s) => format!("\"{}\"", esc_str(s)),
         E::Unit => "()".into(),
         E::Var(n) => n.clone(),
-        E::Neg(x) => format!("-{}", p(x)),
-        E::Not(x) => format!("!{}", p(x)),
-        E::Bin(op, l, r) => format!("{} {} {}", p(l), op.sym(), p(r)),
+        // Operators are printed with the MINIMAL parentheses the documented
+        // grammar requires (precedence: unary > * / % > + - > comparisons >
+        // && > ||, binary operators left associative, comparison chains and
+        // && / || mixtures need parentheses), so that the parser's grouping is
+        // part of what the program families exercise.
+        E::Neg(x) => format!("-{}", unary_operand(x)),
+        E::Not(x) => format!("!{}", unary_operand(x)),
+        E::Bin(op, l, r) => format!("{} {} {}", bin_operand(*op, l, false), op.sym(), bin_operand(*op, r, true)),
         E::If(c, t, None) => format!("if {} {}", print_cond(c), print_block(t)),
         E::If(c, t, Some(f)) => {
             // `else if` chains: an else block that is exactly one if-expression
@@ -594,6 +599,47 @@ pub fn print_expr(e: &E) -> String {
         E::While(c, b) => format!("while {} {}", print_cond(c), print_block(b)),
         E::For(v, l, b) => format!("for {v} in {} {}", print_cond(l), print_block(b)),
     }
+}
+
+fn prec(op: BinOp) -> u8 {
+    match op {
+        BinOp::Or => 1,
+        BinOp::And => 2,
+        BinOp::Eq | BinOp::Ne | BinOp::Lt | BinOp::Le | BinOp::Gt | BinOp::Ge => 3,
+        BinOp::Add | BinOp::Sub => 4,
+        BinOp::Mul | BinOp::Div | BinOp::Mod => 5,
+    }
+}
+
+fn unary_operand(x: &E) -> String {
+    match x {
+        // `--a` / `-!a` would lex differently or read badly; a binary operand binds looser
+        E::Bin(..) | E::Neg(..) | E::Not(..) => format!("({})", print_expr(x)),
+        _ if needs_paren(x) => format!("({})", print_expr(x)),
+        _ => print_expr(x),
+    }
+}
+
+fn bin_operand(op: BinOp, x: &E, right: bool) -> String {
+    let paren = match x {
+        E::Bin(cop, ..) => {
+            let (pc, po) = (prec(*cop), prec(op));
+            if pc < po {
+                true
+            } else if pc > po {
+                // a logical operator never directly contains the other logical
+                // operator without parentheses (mixtures are rejected)
+                matches!((op, cop), (BinOp::Or, BinOp::And) | (BinOp::And, BinOp::Or))
+            } else {
+                // same level: left associative; comparisons do not chain
+                right || po == 3 || (po <= 2 && *cop != op)
+            }
+        }
+        // unary operators bind tighter than every binary operator
+        E::Neg(..) | E::Not(..) => false,
+        _ => needs_paren(x),
+    };
+    if paren { format!("({})", print_expr(x)) } else { print_expr(x) }
 }
 
 fn print_operand(e: &E) -> String {
